@@ -39,6 +39,17 @@ CHECKS["C13"] = dict(
    note="Trusted: vf/sem.py, CLARABEL/SCS, and that PEP() starts a fresh model (C12). Back-end changes between solves are limited to the cvxpy solvers here; MOSEK is covered in C11.",
    design="DESIGN.md §3 C13")
 
+CHECKS["C11"] = dict(
+   technique="property-based testing (Hypothesis): differential testing of the two back-ends on generated models (cvxpy+CLARABEL vs MosekWrapper on an executable stand-in mosek module), each side judged by the independent certificate and instance oracles",
+   text="Generated-input search over models that stress what the MOSEK wrapper indexes (> 128 rows, LMIs not added / out of creation order / function-level next to class LMIs, leaves created during class-constraint generation, dimension reduction). Same value on both sides; on each side the certificate identity holds for that side's sent list with that side's multipliers (same attachment and sign convention), multipliers have the right signs, the returned instance is feasible and reproduces the Gram matrix.",
+   note="Trusted: vf/standin/mosek written from the MOSEK Optimizer-API documentation (self-checking its dual feasibility), vf/sem.py, CLARABEL. Real MOSEK is not installed; discrepancies between real MOSEK and its documentation are out of reach.",
+   design="DESIGN.md §3 C11")
+CHECKS["C12"] = dict(
+   technique="property-based testing (Hypothesis): generated (history, program) pairs executed in forked fresh interpreters; oracle = byte-identical canonical dump of everything sent to the solver, counters, cvxpy problem data and results",
+   text="Generated-input search over histories of built / solved / failed / abandoned models followed by a program B; B's canonical dump (ordered constraint data, counters and registries, cvxpy problem data hash, result and evaluated objects bit for bit) is compared between a fresh fork, a fork that first ran the history, and a fork with another verbosity.",
+   note="Trusted: fork isolation (the parent never builds PEPit objects), determinism of cvxpy canonicalisation and CLARABEL on identical input.",
+   design="DESIGN.md §3 C12")
+
 NOT_APPLICABLE = []
 
 def main():
